@@ -82,7 +82,12 @@ type Run struct {
 	capNotes    []string
 }
 
-const maxStoredViolations = 400
+var maxStoredViolations = func() int {
+	if os.Getenv("VERIF_DUMP_WITNESSES") != "" {
+		return 50_000_000
+	}
+	return 400
+}()
 
 // NewRun starts a run. tier is "quick" or "thorough".
 func NewRun(id, tier string, replay ReplayFunc) *Run {
@@ -242,6 +247,21 @@ func (r *Run) Finish() {
 		}
 		return ws[i] < ws[j]
 	})
+	if p := os.Getenv("VERIF_DUMP_WITNESSES"); p != "" {
+		// triage aid: every unlisted violation witness, one JSON string per line
+		f, err := os.Create(p)
+		if err != nil {
+			Harness("dump: %v", err)
+		}
+		bw := bufio.NewWriter(f)
+		for _, w := range ws {
+			b, _ := json.Marshal(map[string]string{"w": w, "d": firstLine(r.viol[w].Detail)})
+			bw.Write(b)
+			bw.WriteByte('\n')
+		}
+		bw.Flush()
+		f.Close()
+	}
 	confirmed := 0
 	var lines []string
 	for i, w := range ws {
